@@ -16,7 +16,19 @@ func aHex(s string) []byte {
 	if err != nil {
 		panic(badArg{})
 	}
-	return b
+	return dirtySlack(b)
+}
+
+// dirtySlack returns b's octets in a buffer that has 24 octets of spare capacity filled with a non-zero pattern: a
+// caller's slice is often a window into a larger, reused buffer, and what lies behind len(b) is not part of the value.
+// An implementation that reads it (slicing up to cap, testing cap instead of len) computes something else than the model.
+func dirtySlack(b []byte) []byte {
+	backing := make([]byte, len(b)+24)
+	copy(backing, b)
+	for i := len(b); i < len(backing); i++ {
+		backing[i] = 0xa5 ^ byte(i)
+	}
+	return backing[:len(b)]
 }
 
 func aU64(s string) uint64 {
